@@ -14,18 +14,29 @@ from ..common import ToolError
 NEEDS = ["driver"]
 
 
-def source(enum, variants, rule, tag, content, flavour="plain"):
-    """variants: [(ident, rename|None, kind)]"""
+def source(enum, variants, rule, tag, content, flavour="plain", spelling="merged"):
+    """variants: [(ident, rename|None, kind)]. spelling (MC_C02!Spellings): how the container arguments are spread over #[serde(..)]
+    attributes - serde merges all of them: merged (one list) / split (tag and content first, rename_all in a second attribute) /
+    split_rev (rename_all first) / apart (an unrelated #[serde(..)] and a doc comment first, each argument in its own attribute)"""
     name = "Subject"
+    if "+" in flavour:
+        flavour, spelling = flavour.split("+")
     gen = "<T>" if flavour == "generic" else ""
     attrs = []
-    sa = []
-    if enum == "tagged":
-        sa += [f'tag = "{tag}"', f'content = "{content}"']
-    if rule != "none":
-        sa.append(f'rename_all = "{rule}"')
-    if sa:
-        attrs.append(f"#[serde({', '.join(sa)})]")
+    tc = [f'tag = "{tag}"', f'content = "{content}"'] if enum == "tagged" else []
+    ra = [f'rename_all = "{rule}"'] if rule != "none" else []
+    if spelling == "merged":
+        groups = [tc + ra]
+    elif spelling == "split":
+        groups = [tc or ["deny_unknown_fields"], ra]
+    elif spelling == "split_rev":
+        groups = [ra, tc or ["deny_unknown_fields"]]
+    else:
+        groups = [["deny_unknown_fields"]] + [[x] for x in tc] + [ra]
+        attrs.append("/// doc")
+    for g in groups:
+        if g:
+            attrs.append(f"#[serde({', '.join(g)})]")
     body = ""
     for ident, ren, kind in variants:
         if ren:
@@ -44,9 +55,9 @@ def case_variants(c):
     vs = [(c["ident"], None if c["rename"] == "none" else c["rename"], c["kind"]), ("Other", None, "unit")]
     if c["enum"] == "tagged":
         vs.append(("Last", None, "newtype"))
-        if c["flavour"] == "recursive":
+        if c["flavour"].startswith("recursive"):
             vs.append(("Rec", None, "newtype"))
-        if c["flavour"] == "generic":
+        if c["flavour"].startswith("generic"):
             vs.append(("GenV", None, "newtype"))
     return vs
 
@@ -120,6 +131,14 @@ def run_batch(chk, batch, judge_now):
             if r["status"] == "error":
                 if all(e["msg"].startswith("generate:") for e in r["errors"]):
                     continue          # the backend refuses (e.g. generics in Go)
+                spelling = flavour.split("+")[1] if "+" in flavour else "merged"
+                if spelling != "merged":
+                    # the same enum written with its container arguments in ONE #[serde(..)] list is accepted (that spelling is part of
+                    # every run): serde merges the attributes, so this is the same enum and P defines its wire strings
+                    chk.mismatch(f"C02/{lang}/{enum}/spelling={spelling}/input-refused", f"{lang}: enum with its serde arguments spread over several attributes "
+                                 f"({spelling}) is refused: {r['errors'][0]['msg'][:120]}", {"lang": lang, "enum": enum, "rule": rule, "variants": variants, "tag": tag,
+                                 "content": content, "spelling": spelling}, "the wire strings of SerdeAttrs!VariantWire", "refused")
+                    continue
                 raise ToolError(f"case rejected: {r['errors']}\n{srcs[batch.index(b)]}")
             o = observe_enum(lang.split("+")[0], r["obs"])
             if judge_now:
@@ -147,7 +166,7 @@ def run(chk):
     batch = []
     for c in res.replays:
         k = c["case"]
-        batch.append((k["enum"], case_variants(k), k["rule"], c["tag"], c["content"], k["flavour"], c["wires"], k))
+        batch.append((k["enum"], case_variants(k), k["rule"], c["tag"], c["content"], k["flavour"] + "+" + k.get("spelling", "merged"), c["wires"], k))
     if not batch:
         raise ToolError("no cases")
     mid = batch[len(batch) // 2]
@@ -173,7 +192,7 @@ def run(chk):
         if enum == "tagged" and all(v[2] == "unit" for v in vs):
             vs[0] = (vs[0][0], vs[0][1], "newtype")
         tag, content = rng.choice([("type", "content"), ("t", "c"), ("kind", "payload"), ("tagKey", "content_key")])
-        rbatch.append((enum, vs, rng.choice(rules), tag, content, "plain", None, None))
+        rbatch.append((enum, vs, rng.choice(rules), tag, content, "plain+" + rng.choice(["merged", "merged", "split", "split_rev", "apart"]), None, None))
     silent = common.Check(chk.pid, chk.tier, chk.seed)
     events, meta = run_batch(silent, rbatch, False)
     nbad = 0
